@@ -41,7 +41,15 @@ public:
         ++count;
         if (verbose) {
             lines << QStringLiteral("[%1ms] ").arg(g_now_ms) + line;
+            if (liveTrace()) {
+                fprintf(stderr, "%s\n", qPrintable(lines.last()));
+            }
         }
+    }
+    static bool liveTrace()
+    {
+        static const bool on = qEnvironmentVariableIsSet("QXSIM_LIVE");
+        return on;
     }
     // verbose-only detail: never hashed, so verbose and non-verbose runs have the same trace hash
     void note(const QString &line)
